@@ -333,6 +333,23 @@ func (c *Ctx) singleEdits(f Fileset) (out []struct {
 		mod("gid", func(x *Entry) { x.Gid ^= 1 << uint(c.Intn(32)) })
 		mod("mtime sec", func(x *Entry) { x.Sec += int64(1 + c.Intn(5)) })
 		mod("mtime nsec", func(x *Entry) { x.Nsec = (x.Nsec + 1 + c.Intn(999999998)) % 1000000000 })
+		// shifts by exactly 2^64 ns and 2^63 ns: distinct times that a 64-bit nanosecond count cannot tell apart
+		mod("mtime +2^64ns", func(x *Entry) {
+			x.Sec += 18446744073
+			x.Nsec += 709551616
+			if x.Nsec >= 1000000000 {
+				x.Nsec -= 1000000000
+				x.Sec++
+			}
+		})
+		mod("mtime -2^64ns", func(x *Entry) {
+			x.Sec -= 18446744074
+			x.Nsec += 290448384
+			if x.Nsec >= 1000000000 {
+				x.Nsec -= 1000000000
+				x.Sec++
+			}
+		})
 		mod("swap uid/gid", func(x *Entry) {
 			if x.Uid == x.Gid {
 				x.Uid++
@@ -517,7 +534,7 @@ func hashEngine(c *Ctx) {
 	for _, d := range deeps {
 		corpus = append(corpus, deepChain(d))
 	}
-	opts := GenOpts{MaxEntries: maxEnt, Kinds: "fffdLLpDc", SubSecond: true, BigIds: true, Setid: true, Xattrs: true, MaxContent: 200}
+	opts := GenOpts{MaxEntries: maxEnt, Kinds: "fffdLLpDc", SubSecond: true, FarTimes: true, BigIds: true, Setid: true, Xattrs: true, MaxContent: 200}
 	for k := 0; k < nSets+len(corpus); k++ {
 		var fsx Fileset
 		if k < len(corpus) {
